@@ -52,7 +52,7 @@ ASSUMPTIONS = ["the grace period is the documented 15 s (Registration.grace_peri
 EXPECTED_PROBES = ["reg_created", "rereg", "rereg_4xx_live", "update_ok", "update_4xx_live", "delete_ok",
                    "expired_seen", "boundary_pre_eps", "boundary_post_eps", "boundary_tie", "lookup_strict",
                    "lookup_paged", "sweep", "lookup_rich", "resp_from_wire", "blockwise_lookup", "stale_location_404",
-                   "simple_registration", "registration_during_simple_registration_fetch"]
+                   "simple_registration", "registration_during_simple_registration_fetch", "wall_clock_step"]
 
 GRACE = 15
 MAX_BODY = 900
@@ -326,6 +326,11 @@ def gen_main(r, tier):
                 ops.append({"op": "get", "c": c, "loc": ["key", ep, d]})
             else:
                 ops.append({"op": "look", "c": c, "kind": kind, "mode": "strict", "q": []})
+    if r.chance(0.2):
+        # the directory host's wall clock is stepped now and then (NTP, an operator, a resumed VM): lifetimes are about
+        # elapsed time
+        for _ in range(r.randint(1, 3)):
+            ops.insert(r.randint(0, len(ops)), {"op": "jump", "by": r.choice([-86400.0, -3600.0, -100.0, 100.0, 3600.0, 86400.0])})
     if r.chance(0.12):
         # verbose registrants: look-up answers outgrow one datagram and are fetched block-wise
         for op in ops:
@@ -354,6 +359,13 @@ def _look(kind="ep", q=(), c=0, mode="strict"):
 def corpus():
     L2 = [["/s/t", [["rt", "temp"]]], ["/s/h", [["rt", "hum"], ["if", "core.s"]]]]
     out = []
+    # a step of the wall clock while a registration is alive changes nothing about when it expires
+    for by in (-3600.0, 3600.0):
+        out.append({"clients": 1, "net": {}, "ops": [
+            _reg(0, ["ep=a", "lt=600"]), {"op": "sleep", "dt": 100}, {"op": "jump", "by": by}, {"op": "sleep", "dt": 100}, _look("ep"),
+            {"op": "upd", "m": "post", "c": 0, "loc": ["key", "a", None], "q": [], "valid": True},
+            {"op": "until", "key": ["a", None], "which": "model", "off": -1e-6}, _look("ep"),
+            {"op": "until", "key": ["a", None], "which": "model", "off": 1e-6}, _look("ep")]})
     # boundaries of lt + grace, and the restart of the lifetime by an update
     for off in (-1e-6, 0.0, 1e-6):
         out.append({"clients": 1, "net": {}, "ops": [
@@ -1315,6 +1327,11 @@ def execute(sim, scn):
                 await op_sweep(op)
             elif kind == "sleep":
                 await asyncio.sleep(float(op["dt"]))
+            elif kind == "jump":
+                sim.probe("wall_clock_step")
+                sim.net.count("fault.clock_step")
+                sim.log("app", "wall-clock-step", op["by"])
+                sim.timeshim.offset += float(op["by"])
             elif kind == "until":
                 await op_until(op)
 
